@@ -24,7 +24,7 @@ RULE = ("seeded datasets (x: 2-8 points, z: 1-14 numeric/str values, optional ro
         "heatmap, auto_lineplot, auto_scatter, auto_histogram, auto_heatmap) x options (colors, colormap, reverse, log norm, markers, lines, "
         "legend/colorbar, error / colour variables with holes of their own, explicit vmin/vmax incl. 0, colour quantities whose minimum is exactly 0, log axes, zlabels, legend_reverse, legend_marker_alpha, spans, row/col grids); scatter colour variables on a logarithmic colour scale; series of 52-75 points with a glyph check; heat maps under a non-default rcParams pcolor.shading and with exactly one colour bar; colour maps given as Colormap objects; distinct by (kind, shape, "
         "options); non-trivial when >= 2 series or a 2-d mesh is drawn")
-RULE += '; a quarter of the lineplot / scatter / histogram / heatmap figures and grids drawn from the dataset with its dimensions renamed to tolerance / method / drop'
+RULE += '; a quarter of the lineplot / scatter / histogram / heatmap figures and grids drawn from the dataset with its dimensions renamed to tolerance / method / drop; a third of the plain heat maps have an x or y dimension of exactly one entry (F73 repaired)'
 ASSUMPTIONS = [
     "matplotlib backend only (Agg); artists are inspected, pixels are not",
     "the colormap objects are matplotlib's own (viridis, plasma, ...) or xyzpy's xyz_colormaps(None) for the default map (trusted lookup)",
@@ -36,6 +36,7 @@ ASSUMPTIONS = [
 SHARDS = {"quick": 8, "thorough": 16}
 MIN_REACH = {
     "figures_judged": {"quick": 300, "thorough": 5000},
+    "heat_maps_whose_x_or_y_dimension_has_one_entry": {"quick": 2, "thorough": 40},
     "figures_whose_dimensions_are_named_like_selection_keywords": {"quick": 20, "thorough": 350},
     "series_compared": {"quick": 1200, "thorough": 20000},
     "colors_compared": {"quick": 500, "thorough": 8000},
@@ -76,6 +77,9 @@ def cases(ctx):
              "nr": rng.randint(1, 3), "nc": rng.randint(1, 3), "use_row": rng.random() < 0.7, "use_col": rng.random() < 0.7,
              "uniform": rng.random() < 0.8, "xvar": rng.random() < 0.3, "err": rng.choice([None, None, "y", "x", "xy"]),
              "dimorder_seed": rng.randint(0, 999)}
+        if kind == "heatmap" and c["dseed"] % 3 == 1:
+            # DEGENERATE mesh: the x or the y dimension has exactly ONE entry (a 1 x N strip): still a mesh of N cells
+            c["nx" if c["dseed"] % 2 else "nz"] = 1
         if kind in ("scatter", "auto_scatter", "lineplot", "scatter_grid") and c["dseed"] % 7 == 3:
             # LONG series (52-75 points: beyond the length up to which markers are drawn by default on lines)
             c["nx"] = 52 + c["dseed"] % 24
@@ -851,6 +855,8 @@ def run_case(ctx, case):
                 Z = np.asarray(sub["y"].transpose("z", "x").values, dtype=float)
                 xs = np.asarray(sub["x"].values, dtype=float)
                 ys = np.asarray(sub["z"].values, dtype=float)
+            if 1 in Z.shape and base == "heatmap":
+                ctx.count("heat_maps_whose_x_or_y_dimension_has_one_entry")
             if arr.shape != Z.shape:
                 arr = arr.reshape(coords_xy.shape[0] - 1, coords_xy.shape[1] - 1)
             if arr.shape != Z.shape:
